@@ -354,6 +354,16 @@ func Main(args []string) int {
 		}
 	}
 	rec("", maxL)
+	// F4b: a backslash before every byte value (arbitrary bytes: only b f n r t and the backslash itself are escapable; a
+	// backslash before anything else - in particular before a UTF-8 lead byte - stays as it is), at the start, in the middle
+	// and as the last two bytes of the value
+	for x := 0; x < 256; x++ {
+		bx := string([]byte{byte(x)})
+		for _, v := range []string{"\\" + bx, "a\\" + bx + "z", "\\" + bx + "\x82\xac tail", "\\\\\\" + bx} {
+			run(un, []string{"k", "", v}, false, t0)
+			run(iu, []string{"k", "", v}, false, t0)
+		}
+	}
 	// F5: timestamps
 	for _, sec := range []int64{0, 1, 1<<31 - 1, 1 << 31, 1<<32 - 1} {
 		for _, ns := range []int64{0, 1, 999999999} {
